@@ -70,7 +70,11 @@ func c02(c *Ctx) {
 		}
 		c.Case("corpus:"+line, true, "corpus")
 	}
+	var tieCand []l4Case
 	run := func(tc l4Case, kind string) {
+		if (len(tieCand) < 800 || c.Thorough() && len(tieCand) < 6000) && len(tc.Src) < 200 && !tc.Simplify && tc.Opts == l4DefaultOpts {
+			tieCand = append(tieCand, tc)
+		}
 		tc.Opts.KeepPad = false
 		if tc.Opts.Minify && tc.Opts.Single {
 			tc.Opts.Single = false
@@ -101,7 +105,7 @@ func c02(c *Ctx) {
 		return
 	}
 	seeds := repoSeeds()
-	nOpt := 2
+	nOpt := 1
 	if c.Thorough() {
 		nOpt = 6
 	}
@@ -138,6 +142,8 @@ func c02(c *Ctx) {
 		}
 		run(tc, kind)
 	}
+	// correspondence with the Lean L4 model (fragment F0)
+	l4Tie(c, c.N/4+50, tieCand, true)
 	st.export(c)
 }
 
